@@ -1,6 +1,7 @@
 import Proofs.MapOrderLemmas
 import Proofs.PostLemmas
 import Proofs.LoopLemmas
+import Proofs.Budget
 /-!
 # C11 — loops visit exactly the selected items with consistent forloop state
 
@@ -24,18 +25,24 @@ theorem rangeItems_get (a b : Int) (i : Nat) (h : a ≤ b) (hi : i < (b - a + 1)
   have : ¬ b < a := by omega
   simp [rangeItems, this, hi]
 
+/-- a loop over `(a..b)` visits `rangeItems a b` under EVERY budget of the executable model that is at least `b - a`
+    (the Go code iterates lazily and has no limit; the budget has no counterpart in it) -/
+theorem loopItems_range (budget a b : Int) (h : b - a ≤ budget) : loopItems budget (.range a b) = .ok (rangeItems a b) := by
+  simp only [loopItems]
+  rw [if_neg (by omega)]
+
 /-- arrays, typed slices and fixed arrays are visited element by element, in order -/
-theorem loopItems_slice (t : Ty) (xs : List GoVal) : loopItems (.slice t xs) = .ok xs := rfl
-theorem loopItems_array (t : Ty) (xs : List GoVal) : loopItems (.array t xs) = .ok xs := rfl
+theorem loopItems_slice (budget : Int) (t : Ty) (xs : List GoVal) : loopItems budget (.slice t xs) = .ok xs := rfl
+theorem loopItems_array (budget : Int) (t : Ty) (xs : List GoVal) : loopItems budget (.array t xs) = .ok xs := rfl
 /-- a map is visited as `[key, value]` pairs, one per entry, in the order of `values.SortedMapKeys`
     (`MapOrder.sortedEntries`: whatever the order of the entry list `kvs`; `Proofs/MapOrder.lean`
     proves that order independent of it). The only map without an answer has several keys that are
     neither booleans, numbers nor strings (`MapOrder.manyClass4`: ordered by `fmt.Sprint`). -/
-theorem loopItems_map (k v : Ty) (kvs : List (GoVal × GoVal)) (h : MapOrder.manyClass4 kvs = false) :
-    loopItems (.map k v kvs) = .ok ((MapOrder.sortedEntries kvs).map fun kv => mkPair kv.1 kv.2) := by
+theorem loopItems_map (budget : Int) (k v : Ty) (kvs : List (GoVal × GoVal)) (h : MapOrder.manyClass4 kvs = false) :
+    loopItems budget (.map k v kvs) = .ok ((MapOrder.sortedEntries kvs).map fun kv => mkPair kv.1 kv.2) := by
   simp [loopItems, MapOrder.sortedMapEntries, h]
-theorem loopItems_map_length (k v : Ty) (kvs : List (GoVal × GoVal)) (xs : List GoVal)
-    (h : loopItems (.map k v kvs) = .ok xs) : xs.length = kvs.length := by
+theorem loopItems_map_length (budget : Int) (k v : Ty) (kvs : List (GoVal × GoVal)) (xs : List GoVal)
+    (h : loopItems budget (.map k v kvs) = .ok xs) : xs.length = kvs.length := by
   simp only [loopItems] at h
   rcases MapOrder.sortedMapEntries_cases (ε := Cause) kvs with ⟨_, h1⟩ | ⟨_, w, h1⟩
   · rw [h1] at h
@@ -44,7 +51,7 @@ theorem loopItems_map_length (k v : Ty) (kvs : List (GoVal × GoVal)) (xs : List
     simp [MapOrder.sortedEntries_length]
   · rw [h1] at h; cases h
 /-- nil selects nothing -/
-theorem loopItems_nil : loopItems .nil = .ok [] := rfl
+theorem loopItems_nil (budget : Int) : loopItems budget .nil = .ok [] := rfl
 
 /-! ## reversed, offset, limit -/
 
@@ -253,7 +260,7 @@ theorem iterStart_other (var : Bytes) (s : RS) (x : GoVal) (i n : Nat) (cyc) (y 
 theorem loop_denotation (c : RCtx) (line : Nat) (tr : Bool) (var : Bytes) (e : Expr) (mods : LoopMods) (body : List Node)
     (clauses : List (List Node)) (s : RS) (v : GoVal) (items0 : List GoVal) (off lim : Option Int) (cols : Option Nat)
     (hcl : clauses.length ≤ 1)
-    (hv : evaluate c.P s.env e = .ok v) (hitems : loopItems v = .ok items0)
+    (hv : evaluate c.P s.env e = .ok v) (hitems : loopItems c.cfg.budget v = .ok items0)
     (hoff : intModifier c.P mods.offset ⟨line, true⟩ s = .ret (off, s))
     (hlim : intModifier c.P mods.limit ⟨line, true⟩ s = .ret (lim, s))
     (hcols : tablerowCols c.P tr mods.cols ⟨line, true⟩ s = .ret (cols, s)) :
@@ -297,7 +304,7 @@ theorem loop_denotation (c : RCtx) (line : Nat) (tr : Bool) (var : Bytes) (e : E
 theorem for_denotation (c : RCtx) (line : Nat) (var : Bytes) (e : Expr) (mods : LoopMods) (body : List Node)
     (clauses : List (List Node)) (s : RS) (v : GoVal) (items0 : List GoVal) (off lim : Option Int)
     (hcl : clauses.length ≤ 1)
-    (hv : evaluate c.P s.env e = .ok v) (hitems : loopItems v = .ok items0)
+    (hv : evaluate c.P s.env e = .ok v) (hitems : loopItems c.cfg.budget v = .ok items0)
     (hoff : intModifier c.P mods.offset ⟨line, true⟩ s = .ret (off, s))
     (hlim : intModifier c.P mods.limit ⟨line, true⟩ s = .ret (lim, s)) :
     (renderNode c (.loop line false var e mods body clauses) s).runPure =
@@ -328,7 +335,7 @@ theorem iterBody_for (body : M Status) (i n : Nat) (s : RS) :
 theorem tablerow_denotation (c : RCtx) (line : Nat) (var : Bytes) (e : Expr) (mods : LoopMods) (body : List Node)
     (clauses : List (List Node)) (s : RS) (v : GoVal) (items0 : List GoVal) (off lim : Option Int) (cols : Nat)
     (hcl : clauses.length ≤ 1)
-    (hv : evaluate c.P s.env e = .ok v) (hitems : loopItems v = .ok items0)
+    (hv : evaluate c.P s.env e = .ok v) (hitems : loopItems c.cfg.budget v = .ok items0)
     (hoff : intModifier c.P mods.offset ⟨line, true⟩ s = .ret (off, s))
     (hlim : intModifier c.P mods.limit ⟨line, true⟩ s = .ret (lim, s))
     (hcols : tablerowCols c.P true mods.cols ⟨line, true⟩ s = .ret (some cols, s)) :
@@ -397,6 +404,86 @@ example :
         (LoopAcc.start ⟨[], {}⟩)).out = [] := by
   simp [c11Abc, List.foldl, iterStep, LoopAcc.start, iterBody, iterStart, renderBlockBody, renderList, renderNode,
     M.bind, M.pure, Prog.bind, Prog.runPure, bind, pure, nextCyc]
+
+/-! ## The budgets of the executable model are not part of the semantics -/
+
+/-- **C11 (a range loop of any size).** The Go code iterates `(a..b)` lazily, without a limit; the model does the same
+    under a sufficient budget, and the budget is arbitrary. For every `a ≤ b` — no bound on `b - a` — there is a budget
+    (any `budget ≥ b - a`), and in every context with such a budget a `for` loop whose collection evaluates to `(a..b)`
+    visits exactly `rangeItems a b`: `b - a + 1` items, the `i`-th being `a + i`, in this order — what the node renders
+    is the left fold of its body over them (`for_denotation`; the modifiers select from them as `select_spec` says). -/
+theorem range_loop_any_size (a b : Int) (hab : a ≤ b) :
+    (∃ budget : Int, b - a ≤ budget) ∧
+    ∀ c : RCtx, b - a ≤ c.cfg.budget →
+      loopItems c.cfg.budget (.range a b) = .ok (rangeItems a b) ∧
+      (rangeItems a b).length = (b - a + 1).toNat ∧
+      (∀ i : Nat, i < (b - a + 1).toNat → (rangeItems a b)[i]? = some (.int .int (a + i))) ∧
+      ∀ (line : Nat) (var : Bytes) (e : Expr) (body : List Node) (s : RS), evaluate c.P s.env e = .ok (.range a b) →
+        (renderNode c (.loop line false var e {} body []) s).runPure =
+          loopResult (fun e => .located (wrapError c.cfg.path e ⟨line, true⟩)) var s
+            ((rangeItems a b).foldl (iterStep var none (renderBlockBody c body) (rangeItems a b).length) (LoopAcc.start s)) := by
+  refine ⟨⟨b - a, Int.le_refl _⟩, fun c hc => ⟨loopItems_range _ a b hc, rangeItems_length a b hab,
+    fun i hi => rangeItems_get a b i hab hi, ?_⟩⟩
+  intro line var e body s hv
+  have h := for_denotation c line var e {} body [] s (.range a b) (rangeItems a b) none none (by simp) hv
+    (loopItems_range _ a b hc) rfl rfl
+  rw [h]
+  have hs : selectItems ({} : LoopMods).reversed none none (rangeItems a b) = rangeItems a b := by simp [selectItems]
+  rw [hs]
+  cases rangeItems a b <;> rfl
+
+/-- **C11 (the budget is not part of the semantics: the items of a loop).** Raising the budget never changes the items:
+    what `loopItems` answers under `n` (items, or the `unmodelled` of a map with several unordered keys — which does not
+    depend on the budget either) it answers under every `m ≥ n`, unless it was the `unmodelled` of the budget itself. -/
+theorem budget_monotone_loopItems (n m : Int) (h : n ≤ m) (v : GoVal) (hn : ∀ w, loopItems n v ≠ .unmodelled w) :
+    loopItems m v = loopItems n v :=
+  (loopItems_le h v).eq hn
+
+/-- **C11, C12, C01 (the budgets are not part of the semantics: a whole render).** `budget_monotone`: for every value layer,
+    output layer, configuration, file system, include depth, source and environment — a render that gives an answer
+    (output, or a located error, or even a panic) under the loop budget `cfg.budget` gives the SAME answer under every larger
+    one. Through `for`/`tablerow` nodes, their bodies and `else` clauses, captures, conditions, and included files at
+    every depth (`Proofs/Budget.lean`: `renderNode_le`, `incFuel_le`, `run_le`). -/
+theorem budget_monotone (P : Prims) (O : OutPrims) (cfg : Cfg) (fs : FS) (fuel : Nat) (src : Bytes) (line : Nat) (env : Env)
+    (m : Int) (hm : cfg.budget ≤ m) (hn : ∀ w, run P O cfg fs fuel src line env ≠ .unmodelled w) :
+    run P O { cfg with budget := m } fs fuel src line env = run P O cfg fs fuel src line env := by
+  rcases run_le (PrimsLe.refl P) O cfg hm fs fuel src line env with ⟨w, h⟩ | h
+  · exact absurd h (hn w)
+  · exact h
+
+/-- **C11, C15 (both budgets, the standard engine).** The standard value layer with the budget `n` for the array conversion
+    of a range (`stdPrimsB n`; the driver's `stdPrims` is `stdPrimsB 1000000`) and the loop budget `cfg.budget`: a render
+    that gives an answer gives the same answer when either budget, or both, are raised. In particular what `runStd` (the
+    function the model binary computes, and every theorem about it) answers is the answer under ALL larger budgets. -/
+theorem budget_monotone_std (cfg : Cfg) (fs : FS) (fuel : Nat) (src : Bytes) (line : Nat) (env : Env) (n n' m : Int)
+    (hn' : n ≤ n') (hm : cfg.budget ≤ m) (hn : ∀ w, run (stdPrimsB n) stdOut cfg fs fuel src line env ≠ .unmodelled w) :
+    run (stdPrimsB n') stdOut { cfg with budget := m } fs fuel src line env = run (stdPrimsB n) stdOut cfg fs fuel src line env := by
+  rcases run_le (stdPrimsB_le hn') stdOut cfg hm fs fuel src line env with ⟨w, h⟩ | h
+  · exact absurd h (hn w)
+  · exact h
+
+/-- **C11, C15 (what the driver computes).** `runStd` — the function behind every `render` case line, with the two default
+    budgets — when it gives an answer, gives the answer of every run with larger budgets: the defaults limit which inputs
+    the model binary answers, never what the answer is. -/
+theorem budget_monotone_runStd (cfg : Cfg) (fs : FS) (src : Bytes) (line : Nat) (env : Env) (n' m : Int)
+    (hn' : 1000000 ≤ n') (hm : cfg.budget ≤ m) (hn : ∀ w, runStd cfg fs src line env ≠ .unmodelled w) :
+    run (stdPrimsB n') stdOut { cfg with budget := m } fs maxIncludeDepth src line env = runStd cfg fs src line env :=
+  budget_monotone_std cfg fs maxIncludeDepth src line env 1000000 n' m hn' hm hn
+
+/-- a loop node in isolation: the same, for the interaction tree (every answer of the writer), with the order
+    `PLe` = "does the same up to the point, if any, where the smaller budget gave up" -/
+theorem budget_monotone_loop_node (c : RCtx) (m : Int) (hm : c.cfg.budget ≤ m) (line : Nat) (tr : Bool) (var : Bytes) (e : Expr)
+    (mods : LoopMods) (body : List Node) (clauses : List (List Node)) (s : RS) :
+    PLe (renderNode c (.loop line tr var e mods body clauses) s)
+      (renderNode { c with cfg := { c.cfg with budget := m } } (.loop line tr var e mods body clauses) s) :=
+  renderNode_le c c.P m c.inc (PrimsLe.refl _) hm (fun _ _ _ => PLe.refl _) _ s
+
+/-- non-vacuity: under the default budget the loop over `(0..100001)` has no answer; under 100001 it visits 100002 items,
+    and so under every larger budget -/
+example : loopItems ({} : Cfg).budget (.range 0 100001) = .unmodelled "huge range" := rfl
+example (m : Int) (h : 100001 ≤ m) : loopItems m (.range 0 100001) = .ok (rangeItems 0 100001) :=
+  loopItems_range m 0 100001 (by omega)
+-- (`budget_monotone` on source bytes: the last example of `Proofs/C11Source.lean`)
 
 /-! Non-vacuity -/
 example : selectItems true (some 1) (some 2) [.int .int 1, .int .int 2, .int .int 3, .int .int 4]
